@@ -8,7 +8,7 @@
 (* to size n - sh[i], i.e. f[child_i] + sh[i] - n > 0, or child i is completely computable.     *)
 (* The answer is the least fixed point of "add every term that some rule can compute";          *)
 (* a value >= K stands for infinity ("pumping").                                                 *)
-EXTENDS Naturals, Integers, Sequences, FiniteSets, FiniteSetsExt, SequencesExt
+EXTENDS Naturals, Integers, Sequences, FiniteSets, FiniteSetsExt, SequencesExt, TLC
 
 Abs(x) == IF x < 0 THEN -x ELSE x
 ShiftBound(rules) == Max({0} \cup UNION {{Abs(r.sh[i]) : i \in 1..Len(r.sh)} : r \in rules})
@@ -24,7 +24,9 @@ CanFire(f, r, K) ==
 RECURSIVE LfpK(_, _, _, _)
 LfpK(f, rules, C, K) ==
   LET ps == {r.p : r \in {r \in rules : CanFire(f, r, K)}} IN
-  IF ps = {} THEN f ELSE LfpK([c \in C |-> IF c \in ps THEN f[c] + 1 ELSE f[c]], rules, C, K)
+  \* TLCEval: TLC would otherwise keep the new function as an unevaluated expression over the old one, and every later
+  \* application would walk down the whole chain of iterations (quadratic)
+  IF ps = {} THEN f ELSE LfpK(TLCEval([c \in C |-> IF c \in ps THEN f[c] + 1 ELSE f[c]]), rules, C, K)
 \* Chaotic iteration: one (arbitrary but fixed) enabled rule at a time
 RECURSIVE LfpC(_, _, _, _)
 LfpC(f, rules, C, K) ==
@@ -32,7 +34,7 @@ LfpC(f, rules, C, K) ==
   IF en = {} THEN f
   ELSE LET r == CHOOSE x \in en : TRUE IN LfpC([f EXCEPT ![r.p] = @ + 1], rules, C, K)
 
-Zero(C) == [c \in C |-> 0]
+Zero(C) == TLCEval([c \in C |-> 0])
 \* answer over the class set C (a superset of the classes mentioned), values >= K reported as -1
 Norm(f, K) == [c \in DOMAIN f |-> IF f[c] >= K THEN -1 ELSE f[c]]
 AnswerK(rules, C, K) == Norm(LfpK(Zero(C), rules, C, K), K)
